@@ -1102,6 +1102,10 @@ func (f *Focus) DrawEnv(txs []txgen.Tx) sim.BlockSpec {
 			f.Feat["block-with-mempool-only-transactions"]++
 		}
 	}
+	if f.rng(0, 29, "restart") == 0 {
+		spec.Restart = true
+		f.Feat["node-restarted-before-block"]++
+	}
 	if !f.downDrawn {
 		f.downDrawn = true
 		f.down, f.downFrom = hist.DrawDown(f.u().N, len(f.W.G.U.Vals))
